@@ -83,7 +83,12 @@ func (d *dialer) DialContext(ctx context.Context, network, address string) (net.
 	return d.c, nil
 }
 
+var errHang = errors.New("hang: Do did not return within 15 s")
+
 func classOf(err error) string {
+	if err == errHang {
+		return "hang"
+	}
 	var exc *ch.Exception
 	switch {
 	case err == nil:
@@ -503,7 +508,21 @@ func runQuery(s Session, cl *ch.Client, conn *simconn.Conn, base, rev int) (Even
 		}
 	}
 	ctx, cancel := context.WithTimeout(context.Background(), 5*time.Second)
-	err := cl.Do(ctx, q)
+	var err error
+	doDone := make(chan struct{})
+	go func() { err = cl.Do(ctx, q); close(doDone) }()
+	select {
+	case <-doDone:
+	case <-time.After(15 * time.Second):
+		// Do neither finished nor honoured its context's deadline: the connection is closed under it and the run
+		// is recorded as hung (which no specification accepts)
+		_ = conn.Close()
+		select {
+		case <-doDone:
+		case <-time.After(5 * time.Second):
+		}
+		err = errHang
+	}
 	cancel()
 	if s.Scn != "select" {
 		packets = append(packets, blankPacket())
